@@ -104,6 +104,11 @@ def run_mode(spec, parallel, PIDS):
                 out['end_exc'] = '%s: %s' % (type(ex).__name__, str(ex)[:300])
                 out['end_trace'] = traceback.format_exc()[-600:]
                 break
+    if e is not None and getattr(e, 'profiler', None) is not None:
+        try:
+            e.profiler.disable()      # only one cProfile may be active in an interpreter
+        except Exception:
+            pass
     e = None
     comp = None
     m.eng = None
